@@ -56,7 +56,7 @@ MAX_SHRINKS = 6
 # calls that reach Graph.remove(iterable): the only place of the alphabet's code paths that iterates a
 # set of IR objects (hash = address), so the *choice* of the node named in a rejection is not a
 # function of the history
-SET_ORDERED = {"remove", "c_rnv"}
+SET_ORDERED = {"remove", "c_rnv", "pos_remove"}
 
 
 # =============================================================================================
